@@ -17,6 +17,7 @@ import (
 
 	"github.com/sourcenetwork/defradb/client"
 	"github.com/sourcenetwork/defradb/errors"
+	"github.com/sourcenetwork/defradb/internal/connor"
 	"github.com/sourcenetwork/defradb/internal/core"
 	"github.com/sourcenetwork/defradb/internal/datastore"
 	"github.com/sourcenetwork/defradb/internal/db/id"
@@ -74,8 +75,12 @@ func newIndexFetcher(
 		indexField := mapper.Field{Index: typeIndex, Name: field.Name}
 		fieldsToCopy = append(fieldsToCopy, indexField)
 	}
+	// A condition inside an _or branch does not restrict the result on its own: documents that match
+	// only another branch would never be fetched through the index. Such conditions must not be
+	// turned into index conditions (the complete filter is applied to the fetched documents anyway).
+	indexableFilter := withoutOrBranches(docFilter)
 	for i := range fieldsToCopy {
-		f.indexFilter = filter.Merge(f.indexFilter, filter.CopyField(docFilter, fieldsToCopy[i]))
+		f.indexFilter = filter.Merge(f.indexFilter, filter.CopyField(indexableFilter, fieldsToCopy[i]))
 	}
 
 	for _, indexedField := range f.indexDesc.Fields {
@@ -92,6 +97,45 @@ func newIndexFetcher(
 
 	f.indexIter = iter
 	return f, iter.Init(ctx, txn.Datastore())
+}
+
+// withoutOrBranches returns a copy of the filter without its _or branches.
+func withoutOrBranches(docFilter *mapper.Filter) *mapper.Filter {
+	if docFilter == nil {
+		return nil
+	}
+	return &mapper.Filter{Conditions: conditionsWithoutOrBranches(docFilter.Conditions)}
+}
+
+func conditionsWithoutOrBranches(conditions map[connor.FilterKey]any) map[connor.FilterKey]any {
+	result := make(map[connor.FilterKey]any, len(conditions))
+	for key, clause := range conditions {
+		op, isOp := key.(*mapper.Operator)
+		if !isOp {
+			result[key] = clause
+			continue
+		}
+		if op.Operation == opOr {
+			continue
+		}
+		switch t := clause.(type) {
+		case []any:
+			elements := make([]any, 0, len(t))
+			for _, element := range t {
+				if elementMap, ok := element.(map[connor.FilterKey]any); ok {
+					elements = append(elements, conditionsWithoutOrBranches(elementMap))
+				} else {
+					elements = append(elements, element)
+				}
+			}
+			result[key] = elements
+		case map[connor.FilterKey]any:
+			result[key] = conditionsWithoutOrBranches(t)
+		default:
+			result[key] = clause
+		}
+	}
+	return result
 }
 
 func (f *indexFetcher) NextDoc() (immutable.Option[string], error) {
